@@ -30,12 +30,12 @@ type birth struct {
 // Monitor carries what must be remembered across steps: ids ever issued per kind, and the
 // shard-group duration in force when each group appeared.
 type Monitor struct {
-	ever    map[string]map[uint64]bool
-	prev    map[string]map[uint64]bool
-	birth   map[uint64]birth
-	missing map[string]string // db/default-policy -> command after which it was first missing
-	wasDeleted map[uint64]bool // shard groups that were seen marked deleted
-	revived    map[uint64]bool // ... and later seen live again (DeleteShardGroup with CancelDelete)
+	ever       map[string]map[uint64]bool
+	prev       map[string]map[uint64]bool
+	birth      map[uint64]birth
+	missing    map[string]string // db/default-policy -> command after which it was first missing
+	wasDeleted map[uint64]bool   // shard groups that were seen marked deleted
+	revived    map[uint64]bool   // ... and later seen live again (DeleteShardGroup with CancelDelete)
 	// PrunedInLive counts (state, shard) observations of a MarkDelete shard in a live group
 	PrunedInLive int64
 }
@@ -249,8 +249,8 @@ func (m *Monitor) Check(d *meta.Data, lastCmd string) []Issue {
 							if m.revived[a.ID] || m.revived[b.ID] {
 								class = "revived-by-cancel-delete"
 							}
-							if ba.from == "ReplaceMergeShardsCommand" || bb.from == "ReplaceMergeShardsCommand" || a.EndTime.UnixNano() != ba.end || b.EndTime.UnixNano() != bb.end {
-								class += "+shard-merge"
+							if class == "same-duration" && (a.EndTime.UnixNano() != ba.end || b.EndTime.UnixNano() != bb.end) {
+								class += "+shard-merge" // one of the two was extended by ReplaceMergeShards
 							}
 							add("groups-overlap/"+class, "%s engine %d: live groups %d [%s, %s) (created under shard duration %s) and %d [%s, %s) (created under %s) overlap",
 								where, eng, a.ID, ts(a.StartTime), ts(ae), ba.dur, b.ID, ts(b.StartTime), ts(be), bb.dur)
